@@ -159,7 +159,8 @@ PROPS.update({
                 "depth; contiguous x dense depth x byte classes; DFA x start kind x byte classes; prefilter and case "
                 "folding random): BFS from start_state(No) and start_state(Yes) through next_state for all 256 bytes "
                 "and both anchoring arguments; at every reached state the contract of the property is asserted "
-                "(exhaustive per automaton: states/transitions are reported). Then the search recipe from the "
+                "(exhaustive per automaton: states/transitions are reported); every second walk goes through the blanket "
+                "`impl Automaton for &A` and also compares the metadata accessors through it. Then the search recipe from the "
                 "Automaton trait documentation, transcribed into the harness, is run on sampled haystacks and compared "
                 "with try_find. evaluations = automata walked + recipe comparisons. Non-trivial: an automaton with "
                 "more than 3 reachable states, or a recipe comparison with a match.",
@@ -168,7 +169,8 @@ PROPS.update({
         "coverage_map": {"states": "states_walked", "transitions": "transitions_walked"},
         "floors": {"quick": {"transitions_walked": 500_000_000, "states_walked": 1_000_000,
                              "automata_walked_low-dfa": 5000, "automata_walked_low-cnfa": 5000,
-                             "automata_walked_low-nnfa": 2500, "recipe_searches": 100_000},
+                             "automata_walked_low-nnfa": 2500, "recipe_searches": 100_000,
+                             "walks_through_reference_impl": 5000},
                    "thorough": {"transitions_walked": 10_000_000_000}},
         "timeout": T_DEFAULT,
     },
@@ -281,12 +283,14 @@ PROPS.update({
                 "(1) every API (find, find_iter, earliest, overlapping iterator/stepping) on the span equals the same "
                 "API on the sub-slice shifted by start; (2) every match lies inside the span; (3) rewriting all bytes "
                 "outside the span with random bytes, and with pattern heads/tails that would complete a match across "
-                "the boundary, leaves all results unchanged; (4) start=end+1 yields nothing. Same for "
+                "the boundary, leaves all results unchanged; (4) start=end+1 yields nothing; (5) the same span given through "
+                "Input::range(s..e), range(s..=e-1), range(..e), range(s..) and set_start/set_end gives the same try_find "
+                "result. Same for "
                 "packed::Searcher::find_in in all packed variants. Non-trivial: a proper sub-span with a match.",
         "assumptions": COMMON_ASSUMPTIONS[1:],
         "stages": {"quick": NATIVE, "thorough": NATIVE},
         "floors": {"quick": {"evaluations": 3_000_000, "distinct_nontrivial": 300_000, "outside_rewrites": 1_000_000,
-                             "done_spans": 100_000, "packed_span_SlimSSSE3": 100_000, "packed_span_FatAVX2": 100_000,
+                             "done_spans": 100_000, "input_range_forms": 1_000_000, "packed_span_SlimSSSE3": 100_000, "packed_span_FatAVX2": 100_000,
                              "variant_Packed": 4000, "variant_RareBytesOne": 3000, "variant_StartBytesTwo": 2000,
                              "variant_Memmem": 1000},
                    "thorough": {"evaluations": 100_000_000}},
@@ -443,13 +447,18 @@ PROPS.update({
                 "patterns_len, min/max_pattern_len (non-empty collections), match_kind, start_kind, an explicitly "
                 "requested kind, Automaton::pattern_len(i) for every i (low-level types) are compared with the input, "
                 "and for up to 40 patterns per collection that contain no other pattern the haystack "
-                "filler+pattern+filler must yield a match with that pattern's index. evaluations = builds + id probes. "
+                "filler+pattern+filler must yield a match with that pattern's index. For every collection of <= 5000 bytes "
+                "the convenience constructors (AhoCorasick::new, noncontiguous/contiguous NFA::new, DFA::new and their "
+                "::builder(), packed::Searcher::new / Builder::new / Config::default) are compared with the default "
+                "builders; the packed builder must return None (never panic) for no patterns, an empty pattern or more "
+                "than 128 patterns. evaluations = builds + id probes + convenience sets. "
                 "Non-trivial: collections with at least 2 patterns.",
         "assumptions": COMMON_ASSUMPTIONS[1:] + ["the documented size limits (2^31 states etc.) are not approached"],
         "stages": {"quick": NATIVE, "thorough": NATIVE},
         "floors": {"quick": {"evaluations": 40_000, "distinct_nontrivial": 8000, "pattern_id_probes": 30_000,
                              "built_top-auto": 1000, "built_low-dfa": 1000, "built_low-cnfa": 1000,
-                             "shape_thousands_of_random_patterns": 200, "shape_no_patterns": 500},
+                             "shape_thousands_of_random_patterns": 200, "shape_no_patterns": 500,
+                             "convenience_constructor_sets": 500},
                    "thorough": {"evaluations": 1_000_000}},
         "timeout": T_DEFAULT,
     },
